@@ -16,6 +16,8 @@ structure OSim (d o : Disk) : Prop where
   total : o.total = d.total
   bitmap : o.bitmap = d.bitmap
   blocks : o.bitmapBlocks = d.bitmapBlocks
+  src : o.src = d.src
+  pos : 0 < d.total
   one : d.bitmapBlocks.length ≤ 1
   small : d.total < 4096
   ulen : o.raw.unitLen = d.raw.unitLen
@@ -23,8 +25,15 @@ structure OSim (d o : Disk) : Prop where
   off : ∀ u, d.bitmapBlocks.contains u = false → o.raw.units[u]? = d.raw.units[u]?
   closedEq : d.bitmap = none → o.raw = d.raw
 
-theorem OSim.refl (d : Disk) (h1 : d.bitmapBlocks.length ≤ 1) (h2 : d.total < 4096) : OSim d d :=
-  ⟨rfl, rfl, rfl, h1, h2, rfl, rfl, fun _ _ => rfl, fun _ => rfl⟩
+theorem OSim.refl (d : Disk) (h0 : 0 < d.total) (h1 : d.bitmapBlocks.length ≤ 1) (h2 : d.total < 4096) : OSim d d :=
+  ⟨rfl, rfl, rfl, rfl, h0, h1, h2, rfl, rfl, fun _ _ => rfl, fun _ => rfl⟩
+
+/-- at most one bitmap block below 4096 blocks, in either variant of the source -/
+theorem bmCount_le_one {d : Disk} (h : d.total < 4096) : d.bmCount ≤ 1 := by
+  unfold Disk.bmCount bitmapBlockCount; split <;> omega
+
+theorem bmCount_pos {d : Disk} (h : 0 < d.total) : 0 < d.bmCount := by
+  unfold Disk.bmCount bitmapBlockCount; split <;> omega
 
 structure OResp {α : Type} (m : M α) : Prop where
   out : ∀ d o, OSim d o → (m o).1 = (m d).1 ∧ OSim (m d).2 (m o).2
@@ -98,17 +107,17 @@ theorem openLoop_len (r : Raw) : ∀ (is : List Nat) (acc : Array Nat) (pushed :
       simp only [List.length_append, List.length_cons, List.length_nil] at this ⊢
       omega
 
-theorem disk_ext {d o : Disk} (h1 : o.raw = d.raw) (h2 : o.total = d.total) (h3 : o.bitmap = d.bitmap) (h4 : o.bitmapBlocks = d.bitmapBlocks) :
-    o = d := by
+theorem disk_ext {d o : Disk} (h1 : o.raw = d.raw) (h2 : o.total = d.total) (h3 : o.bitmap = d.bitmap) (h4 : o.bitmapBlocks = d.bitmapBlocks)
+    (h5 : o.src = d.src) : o = d := by
   cases d; cases o
-  simp only at h1 h2 h3 h4
-  subst h1 h2 h3 h4
+  simp only at h1 h2 h3 h4 h5
+  subst h1 h2 h3 h4 h5
   rfl
 
 /-- `open_bitmap_buffer` keeps `total_blocks` and records at most `1 + total/4096` bitmap blocks -/
 theorem openBitmap_facts (d : Disk) (h1 : d.bitmapBlocks.length ≤ 1) (h2 : d.total < 4096) :
     (openBitmap d).2.total = d.total ∧ (openBitmap d).2.bitmapBlocks.length ≤ 1 ∧ (openBitmap d).2.raw = d.raw := by
-  have hcnt : bitmapBlockCount d.total = 1 := by unfold bitmapBlockCount; omega
+  have hcnt : d.bmCount ≤ 1 := bmCount_le_one h2
   unfold openBitmap
   cases hb : d.bitmap with
   | some b => exact ⟨rfl, h1, rfl⟩
@@ -118,11 +127,11 @@ theorem openBitmap_facts (d : Disk) (h1 : d.bitmapBlocks.length ≤ 1) (h2 : d.t
     | error er => exact ⟨rfl, by simp, rfl⟩
     | ok kb =>
       simp only
-      have hlen := openLoop_len d.raw (List.range' (le16 kb (4 + 35)) (bitmapBlockCount d.total)) #[] []
-      rw [hcnt] at hlen ⊢
-      rcases hol : openLoop d.raw (List.range' (le16 kb (4 + 35)) 1) #[] [] with ⟨x, pushed⟩
+      have hlen := openLoop_len d.raw (List.range' (le16 kb (4 + 35)) d.bmCount) #[] []
+      rcases hol : openLoop d.raw (List.range' (le16 kb (4 + 35)) d.bmCount) #[] [] with ⟨x, pushed⟩
       rw [hol] at hlen
       simp only [List.length_nil, List.length_range', Nat.zero_add] at hlen
+      have hlen : pushed.length ≤ 1 := Nat.le_trans hlen hcnt
       cases x with
       | error er => exact ⟨rfl, hlen, rfl⟩
       | ok buf => exact ⟨rfl, hlen, rfl⟩
@@ -163,18 +172,18 @@ theorem OResp.getBitmap : OResp Fs.Prodos.getBitmap := by
     exact ⟨trivial, h⟩
   | none =>
     -- with the buffer closed the two objects are the same object
-    have : o = d := disk_ext (h.closedEq hb) h.total h.bitmap h.blocks
+    have : o = d := disk_ext (h.closedEq hb) h.total h.bitmap h.blocks h.src
     subst this
     refine ⟨rfl, ?_⟩
     rw [getBitmap_state]
     obtain ⟨t, l, _⟩ := openBitmap_facts o h.one h.small
-    exact OSim.refl _ l (by rw [t]; exact h.small)
+    exact OSim.refl _ (by rw [t]; exact h.pos) l (by rw [t]; exact h.small)
 
 theorem OResp.setBitmap (buf : Array Nat) : OResp (setBitmap buf) := by
   constructor
   intro d o h
   unfold Fs.Prodos.setBitmap
-  exact ⟨rfl, ⟨h.total, rfl, h.blocks, h.one, h.small, h.ulen, h.size, h.off, fun hn => by cases hn⟩⟩
+  exact ⟨rfl, ⟨h.total, rfl, h.blocks, h.src, h.pos, h.one, h.small, h.ulen, h.size, h.off, fun hn => by cases hn⟩⟩
 
 /-- `read_block` -/
 theorem OResp.readBlock (i : Nat) : OResp (Fs.Prodos.readBlock i) := by
@@ -224,8 +233,8 @@ theorem zapBlock_eq (data : Bytes) (i offset : Nat) (e : Disk) : Fs.Prodos.zapBl
     if data.length < offset then (.error .panic, e) else
     if i < e.raw.units.size then
       (.ok (), Disk.mk ⟨e.raw.unitLen, e.raw.units.setIfInBounds i (quantize (blockSlice data offset))⟩ e.total
-                 (if e.bitmapBlocks.contains i then none else e.bitmap) e.bitmapBlocks)
-    else (.error .imgErr, Disk.mk e.raw e.total (if e.bitmapBlocks.contains i then none else e.bitmap) e.bitmapBlocks) := by
+                 (if e.bitmapBlocks.contains i then none else e.bitmap) e.bitmapBlocks e.src)
+    else (.error .imgErr, Disk.mk e.raw e.total (if e.bitmapBlocks.contains i then none else e.bitmap) e.bitmapBlocks e.src) := by
   unfold Fs.Prodos.zapBlock imgWrite
   split
   · rfl
@@ -244,13 +253,13 @@ theorem zapBlock_eq (data : Bytes) (i offset : Nat) (e : Disk) : Fs.Prodos.zapBl
 theorem OResp.zapBlock (data : Bytes) (i offset : Nat) : OResp (Fs.Prodos.zapBlock data i offset) := by
   constructor
   intro d o h
-  rw [zapBlock_eq, zapBlock_eq, h.size, h.blocks, h.total, h.bitmap, h.ulen]
+  rw [zapBlock_eq, zapBlock_eq, h.size, h.blocks, h.total, h.bitmap, h.ulen, h.src]
   by_cases hl : data.length < offset
   · simp only [if_pos hl]; exact ⟨trivial, h⟩
   · simp only [if_neg hl]
     by_cases hi : i < d.raw.units.size
     · simp only [if_pos hi]
-      refine ⟨trivial, ⟨rfl, rfl, rfl, h.one, h.small, rfl, by simp [h.size], ?_, ?_⟩⟩
+      refine ⟨trivial, ⟨rfl, rfl, rfl, rfl, h.pos, h.one, h.small, rfl, by simp [h.size], ?_, ?_⟩⟩
       · intro u hu
         show (o.raw.units.setIfInBounds i _)[u]? = (d.raw.units.setIfInBounds i _)[u]?
         simp only [Array.getElem?_setIfInBounds, h.size]
@@ -275,7 +284,7 @@ theorem OResp.zapBlock (data : Bytes) (i offset : Nat) : OResp (Fs.Prodos.zapBlo
             simp only [hc', Bool.false_eq_true, if_false] at hn
             rw [h.closedEq hn]
     · simp only [if_neg hi]
-      refine ⟨trivial, ⟨rfl, rfl, rfl, h.one, h.small, h.ulen, h.size, h.off, ?_⟩⟩
+      refine ⟨trivial, ⟨rfl, rfl, rfl, rfl, h.pos, h.one, h.small, h.ulen, h.size, h.off, ?_⟩⟩
       intro hn
       show o.raw = d.raw
       by_cases hc : d.bitmapBlocks.contains i = true
@@ -297,15 +306,26 @@ theorem OResp.get_blocks {β : Type} {f : Disk → M β} (hf : ∀ d o, OSim d o
   exact hf d o h
 
 
-/-- code following `M.get` that reads only `total_blocks` and the recorded bitmap blocks -/
-theorem OResp.get_bind {β : Type} {f : Disk → M β} (h : ∀ d o : Disk, o.total = d.total → o.bitmapBlocks = d.bitmapBlocks → f o = f d)
+/-- code following `M.get` that reads only `total_blocks`, the recorded bitmap blocks and the source variant -/
+theorem OResp.get_bind {β : Type} {f : Disk → M β}
+    (h : ∀ d o : Disk, o.total = d.total → o.bitmapBlocks = d.bitmapBlocks → o.src = d.src → f o = f d)
     (hf : ∀ d, OResp (f d)) : OResp (M.get >>= f) := by
   constructor
   intro d o hs
   have e1 : (M.get >>= f) d = f d d := rfl
   have e2 : (M.get >>= f) o = f o o := rfl
-  rw [e1, e2, h d o hs.total hs.blocks]
+  rw [e1, e2, h d o hs.total hs.blocks hs.src]
   exact (hf d).out d o hs
+
+/-- an object that carries only what code following `M.get` may read -/
+def parDisk (t : Nat) (bl : List Nat) (sr : Repairs) : Disk := { raw := ⟨0, #[]⟩, total := t, bitmap := none, bitmapBlocks := bl, src := sr }
+
+/-- the same, with the check "reads only these three fields" discharged by `rfl` at the use site -/
+theorem OResp.get_bind_par {β : Type} {f : Disk → M β} (h : ∀ d : Disk, f d = f (parDisk d.total d.bitmapBlocks d.src))
+    (hf : ∀ d, OResp (f d)) : OResp (M.get >>= f) := by
+  apply OResp.get_bind _ hf
+  intro d o ht hb hs
+  rw [h o, h d, ht, hb, hs]
 
 theorem OResp.allocate (i : Nat) : OResp (allocate i) := by
   unfold Fs.Prodos.allocate
@@ -334,7 +354,7 @@ theorem OResp.isBlockFree (i : Nat) : OResp (isBlockFree i) := by
 theorem OResp.numFreeBlocks : OResp numFreeBlocks := by
   unfold Fs.Prodos.numFreeBlocks
   apply OResp.get_bind
-  · intro d o ht _; simp only [ht]
+  · intro d o ht _ _; simp only [ht]
   · intro d
     apply OResp.ite (OResp.pure _)
     exact OResp.bind OResp.getBitmap (fun buf => OResp.lift _)
@@ -342,7 +362,7 @@ theorem OResp.numFreeBlocks : OResp numFreeBlocks := by
 theorem OResp.getAvailableBlock : OResp getAvailableBlock := by
   unfold Fs.Prodos.getAvailableBlock
   apply OResp.get_bind
-  · intro d o ht _; simp only [ht]
+  · intro d o ht _ _; simp only [ht]
   · intro d
     apply OResp.ite (OResp.pure _)
     exact OResp.bind OResp.getBitmap (fun buf => OResp.lift _)
@@ -351,7 +371,7 @@ theorem OResp.getAvailableBlock : OResp getAvailableBlock := by
 theorem OResp.writeBlock (data : Bytes) (i offset : Nat) : OResp (writeBlock data i offset) := by
   unfold Fs.Prodos.writeBlock
   apply OResp.get_bind
-  · intro d o _ hb; simp only [hb]
+  · intro d o _ hb _; simp only [hb]
   · intro d
     apply OResp.ite (OResp.fail _)
     exact OResp.bind (OResp.zapBlock _ _ _) (fun _ => OResp.allocate _)
@@ -360,8 +380,8 @@ theorem OResp.writeBlock (data : Bytes) (i offset : Nat) : OResp (writeBlock dat
 
 theorem osim_openTwin {d : Disk} {b : Array Nat} (h : Coh d) (hb : d.bitmap = some b) (ht : d.total < 4096) : OSim d (openTwin d b) := by
   obtain ⟨hl, _, _, _⟩ := h.buf b hb
-  have hcnt : bitmapBlockCount d.total = 1 := by unfold bitmapBlockCount; omega
-  refine ⟨rfl, hb.symm, hl.symm, by rw [hl, List.length_range', hcnt]; exact Nat.le_refl 1, ht, (wbRaw_size _ _ _ _).2, flushed_size d b, ?_, ?_⟩
+  have hpos : 0 < d.total := by have := h.total; have := h.key; unfold volKeyBlock at *; omega
+  refine ⟨rfl, hb.symm, hl.symm, rfl, hpos, by rw [hl, List.length_range']; exact bmCount_le_one ht, ht, (wbRaw_size _ _ _ _).2, flushed_size d b, ?_, ?_⟩
   · intro u hu
     rw [hl] at hu
     exact flushed_other b (by simpa using hu)
@@ -399,13 +419,13 @@ theorem forEach_zap_none (data : Bytes) (first : Nat) : ∀ (is : List Nat) (e :
     | ok u => exact ih e1 h1
 
 /-- after `writeback_bitmap_buffer` the buffer is closed or no bitmap block is recorded -/
-theorem writeback_post (e : Disk) : (writeback e).2.bitmap = none ∨ (writeback e).2.bitmapBlocks = [] := by
+theorem writeback_post (e : Disk) (hp : 0 < e.total) : (writeback e).2.bitmap = none ∨ (writeback e).2.bitmapBlocks = [] := by
   have hw : writeback e = (match e.bitmap with
       | none => (pure () : M Unit)
       | some buf => match e.bitmapBlocks with
         | [] => pure ()
         | first :: _ => forEach (fun i => Fs.Prodos.zapBlock buf.toList i ((i - first) * blockSize))
-            (List.range' first (bitmapBlockCount e.total))) e := rfl
+            (List.range' first e.bmCount)) e := rfl
   rw [hw]
   cases hb : e.bitmap with
   | none => exact Or.inl hb
@@ -416,7 +436,7 @@ theorem writeback_post (e : Disk) : (writeback e).2.bitmap = none ∨ (writeback
     | cons first tl =>
       simp only
       left
-      obtain ⟨n, hn⟩ : ∃ n, bitmapBlockCount e.total = n + 1 := ⟨e.total / 4096, by unfold bitmapBlockCount; omega⟩
+      obtain ⟨n, hn⟩ : ∃ n, e.bmCount = n + 1 := ⟨e.bmCount - 1, by have := bmCount_pos hp; omega⟩
       rw [hn]
       show (forEach _ (first :: List.range' (first + 1) n) e).2.bitmap = none
       unfold forEach M.bind
@@ -444,8 +464,9 @@ theorem OResp.writeback : OResp Fs.Prodos.writeback := by
       | some buf => match e.bitmapBlocks with
         | [] => Pure.pure ()
         | first :: _ => Fs.Prodos.forEach (fun i => Fs.Prodos.zapBlock buf.toList i ((i - first) * blockSize))
-            (List.range' first (bitmapBlockCount e.total))) e := fun _ => rfl
-  rw [hw d, hw o, h.bitmap, h.blocks, h.total]
+            (List.range' first e.bmCount)) e := fun _ => rfl
+  have hbm : o.bmCount = d.bmCount := by unfold Disk.bmCount; rw [h.src, h.total]
+  rw [hw d, hw o, h.bitmap, h.blocks, hbm]
   cases d.bitmap with
   | none => exact ⟨rfl, h⟩
   | some buf =>
@@ -457,7 +478,7 @@ theorem OResp.writeback : OResp Fs.Prodos.writeback := by
 /-- objects related by `OSim` are saved to the same bytes -/
 theorem save_osim {d o : Disk} (h : OSim d o) : save o = save d := by
   obtain ⟨e1, s1⟩ := OResp.writeback.out d o h
-  have hr : (writeback o).2.raw = (writeback d).2.raw := osim_raw_eq s1 (writeback_post d)
+  have hr : (writeback o).2.raw = (writeback d).2.raw := osim_raw_eq s1 (writeback_post d h.pos)
   unfold save Disk.flush
   rcases hd : writeback d with ⟨x, d1⟩
   rcases ho : writeback o with ⟨x', o1⟩
@@ -480,6 +501,7 @@ macro_rules | `(tactic| oresp_step) => `(tactic| first
   | exact OResp.readBlock _ | exact OResp.getBitmap | exact OResp.numFreeBlocks | exact OResp.getAvailableBlock
   | exact OResp.zapBlock _ _ _ | exact OResp.writeBlock _ _ _ | exact OResp.allocate _ | exact OResp.deallocate _
   | exact OResp.isBlockFree _
+  | (refine OResp.get_bind_par (fun d => rfl) (fun d => ?_))
   | apply OResp.bind
   | apply OResp.ite
   | apply OResp.attempt
